@@ -22,6 +22,8 @@ def check(tree, rep, tier='quick', seed=0):
     R.k22g_every_section_read_back(core, rep)
     R.k11g_parser_objects_untouched(core, rep)
     R.k22_solution_agreement(core, rep)
+    R.k39_cli_options_defined_once(core, rep)   # the year stamped into the solution is the year the user named
+    R.k40_state_belongs_to_the_instance(core, rep)   # the values read back are this solution's: the filler's tables are not shared with an earlier filler
     R.k14_solution_lists_all(core, rep)
     cat = get_catalogue(tree)
     n = 0
